@@ -305,7 +305,7 @@ class Ctx:
         cov = {
             "obligations": obligations,
             "discharged": discharged,
-            "checker_cmd": " && ".join(dict.fromkeys(self.checker_cmds)) or "cd lean && lake build",
+            "checker_cmd": " && ".join("(" + c + ")" for c in dict.fromkeys(self.checker_cmds)) or "(cd lean && lake build)",
             "trusted_base": TRUSTED_BASE,
             "theorems": self.theorems,
             "evaluations": self.evaluations,
